@@ -160,7 +160,7 @@ theorem condMean_const (nObs : Nat) (cv uniq : Nat → Nat) (data : Mat K) (i c 
 /-- the Gram form used by `calc_rdm_euclidean` is the mean squared difference -/
 theorem euclidRdm_eq_spec (nCh : Nat) (M : Mat K) (a b : Nat) :
     euclidRdm nCh M a b = euclidSpec nCh M a b := by
-  unfold euclidRdm euclidSpec Rsa.Gen.C18.euclidNorm Rsa.Gen.C18.euclidGram
+  unfold euclidRdm euclidSpec Rsa.Gen.C01.euclidNorm Rsa.Gen.C01.euclidEntry
   congr 1
   simp only [sumTo_eq]
   push_cast
@@ -294,6 +294,54 @@ theorem mem_makeDatasets (p : Params K) (cond : CondInput K) (signals noises : N
   exact ⟨k, List.mem_range.mp hk, rfl⟩
 
 end datasets
+
+/-! ### the coded factor steps of the repaired `make_signal` (eigh, QR) -/
+
+section factors
+variable {K : Type} [Field K] [LinearOrder K] [IsStrictOrderedRing K]
+
+/-- an eigenvalue that is 0 or at least the threshold of the code is not changed by the clamp
+    `eigval[eigval < 1e-15] = 0` (depends on the regenerated leaf `eigClamp`) -/
+theorem eigClamp_fixed (x : K) (h : x = 0 ∨ (1 : K) / 1000000000000000 ≤ x) :
+    Rsa.Gen.C18.eigClamp x = x := by
+  unfold Rsa.Gen.C18.eigClamp
+  push_cast
+  rcases h with rfl | h
+  · simp
+  · rw [if_neg (not_lt.mpr h)]
+
+variable [HasSqrt K]
+
+/-- `chol_G chol_Gᵀ = V diag(w) Vᵀ` when no eigenvalue is clamped away and each has a square
+    root (`√w·√w = w`, i.e. `w ≥ 0` over the reals: the model RDM is Euclidean-embeddable) -/
+theorem cholEigh_gram (n a b : Nat) (w : Nat → K) (V : Mat K)
+    (hw : ∀ j, j < n → Rsa.Gen.C18.eigClamp (w j) = w j ∧
+      HasSqrt.sqrt (w j) * HasSqrt.sqrt (w j) = w j) :
+    gramRows n (cholEigh w V) a b = sumTo n (fun j => V a j * w j * V b j) := by
+  unfold gramRows cholEigh
+  apply sumTo_congr
+  intro j hj
+  obtain ⟨hc, hs⟩ := hw j hj
+  rw [hc]
+  calc V a j * HasSqrt.sqrt (w j) * (V b j * HasSqrt.sqrt (w j))
+      = V a j * (HasSqrt.sqrt (w j) * HasSqrt.sqrt (w j)) * V b j := by ring
+    _ = V a j * w j * V b j := by rw [hs]
+
+/-- rows of `Qᵀ·√w` are orthogonal with squared norm `w` when the columns of `Q` are orthonormal -/
+theorem whitenQR_gram (w a b : Nat) (q : Mat K)
+    (hs : HasSqrt.sqrt (w : K) * HasSqrt.sqrt (w : K) = (w : K))
+    (hQ : sumTo w (fun c => q c a * q c b) = if a = b then 1 else 0) :
+    gramRows w (whitenQR w q) a b = if a = b then (w : K) else 0 := by
+  unfold gramRows whitenQR Rsa.Gen.C18.exactScale
+  have : sumTo w (fun l => q l a * HasSqrt.sqrt (w : K) * (q l b * HasSqrt.sqrt (w : K)))
+      = (HasSqrt.sqrt (w : K) * HasSqrt.sqrt (w : K)) * sumTo w (fun c => q c a * q c b) := by
+    simp only [sumTo_eq, Finset.mul_sum]
+    refine Finset.sum_congr rfl (fun c _ => ?_)
+    ring
+  rw [this, hs, hQ]
+  split <;> simp
+
+end factors
 
 /-! ### squareform, nested lists -/
 
